@@ -11,22 +11,78 @@ pub fn stub_dispatch<'a>(_m: &'static tracing_core::Metadata<'static>, _f: &'a t
 pub fn pl_lock_slow(_m: &parking_lot::RawMutex, _t: Option<std::time::Instant>) -> bool { true }
 pub fn pl_unlock_slow(_m: &parking_lot::RawMutex, _f: bool) {}
 
-// transparent hasher: DefaultHasher::{write,finish} record the byte stream instead of SipHash, so that
-// "same hash for every key" <=> "same bytes fed to the hasher" is decidable. Counterexamples are
-// replayed natively with the real SipHash.
-pub static mut TH_ACC: u64 = 0;
-pub static mut TH_N: u64 = 0;
-pub fn th_write(_h: &mut std::collections::hash_map::DefaultHasher, bytes: &[u8]) {
+// transparent hasher: DefaultHasher::{write,write_str,finish} record the byte stream fed to the hasher
+// instead of running SipHash. finish() returns a polynomial accumulator of the stream (what the code
+// under test sees) and appends the finished stream to a log, so that a harness can ask the exact
+// question "were the same bytes hashed?" (vs::streams_equal) without relying on the accumulator being
+// collision-free. Counterexamples are replayed natively with the real SipHash.
+pub const TH_CAP: usize = 48;
+pub const TH_LOG: usize = 8;
+pub static mut TH_CUR: [u8; TH_CAP] = [0; TH_CAP];
+pub static mut TH_N: usize = 0;
+pub static mut TH_ACC: u64 = 7;
+pub static mut TH_STREAMS: [[u8; TH_CAP]; TH_LOG] = [[0; TH_CAP]; TH_LOG];
+pub static mut TH_LENS: [usize; TH_LOG] = [0; TH_LOG];
+pub static mut TH_FIN: usize = 0;
+pub fn th_reset() { unsafe { TH_N = 0; TH_ACC = 7; TH_FIN = 0; } }
+pub fn th_write(_h: &mut std::hash::DefaultHasher, bytes: &[u8]) {
     unsafe {
         let mut i = 0;
         while i < bytes.len() {
-            // injective for streams of <= 7 bytes: base-257 positional encoding (+1 so that 0x00 counts)
-            TH_ACC = TH_ACC.wrapping_mul(257).wrapping_add(bytes[i] as u64 + 1);
+            TH_ACC = TH_ACC.wrapping_mul(1099511628211).wrapping_add(bytes[i] as u64 + 1);
+            if TH_N < TH_CAP { TH_CUR[TH_N] = bytes[i]; }
             TH_N += 1;
             i += 1;
         }
     }
 }
-pub fn th_finish(_h: &std::collections::hash_map::DefaultHasher) -> u64 {
-    unsafe { let r = TH_ACC; TH_ACC = 0; TH_N = 0; r }
+pub fn th_write_str(h: &mut std::hash::DefaultHasher, s: &str) {
+    // what SipHasher13::write_str does: the bytes, then 0xFF
+    th_write(h, s.as_bytes());
+    th_write(h, &[0xFF]);
+}
+pub fn th_finish(_h: &std::hash::DefaultHasher) -> u64 {
+    unsafe {
+        let r = TH_ACC;
+        if TH_FIN < TH_LOG {
+            TH_STREAMS[TH_FIN] = TH_CUR;
+            TH_LENS[TH_FIN] = TH_N;
+        }
+        TH_FIN += 1;
+        TH_ACC = 7;
+        TH_N = 0;
+        r
+    }
+}
+/// finished streams i and j are byte-identical (and fit the log)
+pub fn streams_equal(i: usize, j: usize) -> bool {
+    unsafe {
+        if i >= TH_LOG || j >= TH_LOG || i >= TH_FIN || j >= TH_FIN { return false; }
+        if TH_LENS[i] != TH_LENS[j] || TH_LENS[i] > TH_CAP { return false; }
+        let mut k = 0;
+        while k < TH_LENS[i] { if TH_STREAMS[i][k] != TH_STREAMS[j][k] { return false; } k += 1; }
+        true
+    }
+}
+pub fn streams_finished() -> usize { unsafe { TH_FIN } }
+
+/// `alloc` kind: Vec::with_capacity asserts that no pre-allocation exceeds what any buffer in the
+/// harnesses could justify (all buffers are < 64 bytes), then allocates lazily.
+pub fn stub_vec_with_capacity<T>(capacity: usize) -> Vec<T> {
+    kani::assert(capacity <= 4096, "VP:alloc:bounded by buffer");
+    Vec::new()
+}
+
+/// memchr::memchr -> reference linear scan (the word-at-a-time fallback is costly for SAT; same contract)
+pub fn naive_memchr(n: u8, h: &[u8]) -> Option<usize> {
+    let mut i = 0;
+    while i < h.len() { if h[i] == n { return Some(i); } i += 1; }
+    None
+}
+
+/// memchr's raw-pointer entry (what the `#[inline]` public wrapper calls): same linear scan
+pub unsafe fn naive_memchr_raw(needle: u8, start: *const u8, end: *const u8) -> Option<*const u8> {
+    let mut p = start;
+    while p < end { if *p == needle { return Some(p); } p = p.add(1); }
+    None
 }
